@@ -86,13 +86,15 @@ class Out:
         if rc != 0 and len(self.samples) < 1 and code not in (None, 'E_CONFIRM_REQUIRED'):
             self.samples.append(case)
 
-def run_matrix_world(kind, seed, quick, suffix=None):
+def run_matrix_world(kind, seed, quick, suffix=None, last_op=None):
     rng = random.Random(seed)
     gen = C.gen_tables(); cat, _ = C.load_catalogue()
     w = C.build_world(kind, 'c10', root_suffix=suffix)
     o = Out()
-    name = kind + ('+backslash' if suffix else '')
+    name = kind + ('+backslash' if suffix else '') + ('+' + last_op if last_op else '')
     try:
+        if last_op:      # a history step first (e.g. a rollback: its own record then is a snapshot id that is no valid rollback target)
+            C.perturb(w, rng, 1, last=last_op)
         R = C.Runner(w, cat)
         invs = []
         for cid in cat.leaf_ids():
@@ -223,9 +225,17 @@ def replay(ctx, gen):
     if rep.get('stream') not in ('matrix', 'failure') or 'argv' not in rep:
         ctx.notes.append('replay file is not a CLI case; running the full check instead')
         return False
-    kind = rep['world'].replace('+backslash', '')
+    kind = rep['world'].replace('+backslash', '').replace('+rollback', '')
     w = C.build_failure_world(kind, 'c10r') if rep['stream'] == 'failure' else C.build_world(kind, 'c10r', root_suffix=(BACKSLASH_DIR if '+backslash' in rep['world'] else None))
     try:
+        if '+rollback' in rep['world']:
+            # same history step; the argv of the case may name the rollback record of the original run: substitute this run's
+            C.perturb(w, random.Random(0), 1, last='rollback')
+            snaps = w.info.get('snapshots') or []
+            if '--to' in rep['argv'] and snaps:
+                i = rep['argv'].index('--to')
+                if i + 1 < len(rep['argv']) and rep['argv'][i + 1].isdigit():
+                    rep['argv'][i + 1] = snaps[0]
         rc, doc, out, err = C.world_cli(w, rep['argv'], stdin=C.RECORD_EVENT.encode() if 'record' in rep['argv'] else None)
         for p in C.check_envelope(doc, rc, out, rep.get('expected_command_id'), gen=gen):
             ctx.violation('`agentpack %s`: %s' % (' '.join(rep['argv']), p), rep)
@@ -270,6 +280,7 @@ def run(ctx):
     with concurrent.futures.ProcessPoolExecutor(max_workers=min(8, NCPU)) as ex:
         futs = [ex.submit(run_matrix_world, k, seeds[k], quick) for k in kinds]
         futs.append(ex.submit(run_matrix_world, 'pending', seeds['bs'], quick, BACKSLASH_DIR))
+        futs.append(ex.submit(run_matrix_world, 'pending', seeds['bs'] + 1, quick, None, 'rollback'))
         futs += [ex.submit(run_failure_world, k, seeds[k], quick) for k in fkinds]
         futs += [ex.submit(run_mcp_world, k, seeds['m' + k], quick, fl) for k, fl in mk]
         for f in futs:
